@@ -7,7 +7,6 @@ use unicode_width::UnicodeWidthStr;
 use crate::ansi::measure_text_width;
 use crate::color;
 use crate::config;
-use crate::config::delta_unreachable;
 use crate::delta::{self, State, StateMachine};
 use crate::fatal;
 use crate::format::{self, FormatStringSimple, Placeholder};
@@ -168,9 +167,16 @@ impl StateMachine<'_> {
                     self.get_next_color(Some(key_color))
                 }
             }
-            (None, _, true) => delta_unreachable("is_repeat cannot be true when key has no color."),
-            (Some(_), None, _) => {
-                delta_unreachable("There must be a previous key if the key has a color.")
+            // The remaining cases arise when git itself colored some of the lines (e.g.
+            // blame.coloring): such a line is painted in git's color and its key is not
+            // recorded in blame_key_colors.
+            (None, previous_key_color, true) => {
+                // Repeats a key that git colored: choose a color as for a new key.
+                self.get_next_color(previous_key_color.map(|s| s.as_str()))
+            }
+            (Some(key_color), None, _) => {
+                // The previous line was colored by git: nothing of ours to collide with.
+                key_color.to_owned()
             }
         }
     }
